@@ -63,10 +63,13 @@ var pathExprs = []exprSpec{
 }
 
 var placements = []string{"direct", "grouping-local", "grouping-remote", "augment-from-user", "augment-into-user", "typedef-remote", "submodule", "grouping-unused", "grouping-nested-remote",
-	"uses-when-remote", "refine-must-remote", "deviate-add-must", "augment-when-remote"}
+	"uses-when-remote", "refine-must-remote", "deviate-add-must", "augment-when-remote", "typedef-unused"}
+
+// carriers: must, when, leafref path, leafref path as a member of a union ("upath")
+var carriers = []string{"must", "when", "path", "upath"}
 
 func table(carrier string) []exprSpec {
-	if carrier == "path" {
+	if carrier == "path" || carrier == "upath" {
 		return pathExprs
 	}
 	return xpathExprs
@@ -74,9 +77,9 @@ func table(carrier string) []exprSpec {
 
 func genCase(t *rapid.T) Case {
 	c := Case{Placement: placements[rapid.IntRange(0, len(placements)-1).Draw(t, "placement")],
-		Carrier:   []string{"must", "when", "path"}[rapid.IntRange(0, 2).Draw(t, "carrier")],
+		Carrier:   carriers[rapid.IntRange(0, len(carriers)-1).Draw(t, "carrier")],
 		UserBinds: []string{"other", "none", "same"}[rapid.IntRange(0, 2).Draw(t, "binds")]}
-	if only := onlyCarrier[c.Placement]; only != "" {
+	if only := onlyCarrier[c.Placement]; only != "" && !(only == "path" && c.Carrier == "upath") {
 		c.Carrier = only
 	}
 	c.Expr = rapid.IntRange(0, len(table(c.Carrier))-1).Draw(t, "expr")
@@ -84,7 +87,7 @@ func genCase(t *rapid.T) Case {
 }
 
 // placements that exist for one carrier only
-var onlyCarrier = map[string]string{"typedef-remote": "path", "uses-when-remote": "when", "augment-when-remote": "when", "refine-must-remote": "must", "deviate-add-must": "must"}
+var onlyCarrier = map[string]string{"typedef-remote": "path", "typedef-unused": "path", "uses-when-remote": "when", "augment-when-remote": "when", "refine-must-remote": "must", "deviate-add-must": "must"}
 
 const (
 	nsA = "urn:verif:ma"
@@ -104,10 +107,21 @@ func carrierNode(c Case, e string) *sg.Node {
 		n.Musts = []sg.Must{{Expr: e}}
 	case "when":
 		n.When = e
+	case "upath":
+		n.Type = pathType(c, e)
 	default:
 		n.Type = &sg.TypeSpec{Name: "leafref", Path: e}
 	}
 	return n
+}
+
+// pathType: the leafref type carrying the path, for "upath" as the second member of a union
+func pathType(c Case, e string) *sg.TypeSpec {
+	lr := &sg.TypeSpec{Name: "leafref", Path: e}
+	if c.Carrier == "upath" {
+		return &sg.TypeSpec{Name: "union", Members: []*sg.TypeSpec{{Name: "int8"}, lr}}
+	}
+	return lr
 }
 
 // build returns the module set, the name of the module whose text contains the expression, and the
@@ -166,8 +180,10 @@ func build(c Case) (mods []*sg.Mod, definer string, binds map[string]string) {
 		mods = append(mods, m3)
 		binds["m3"] = "urn:verif:m3"
 	case "typedef-remote":
-		m1.Typedefs = []*sg.Typedef{{Name: "t", Type: &sg.TypeSpec{Name: "leafref", Path: e}}}
+		m1.Typedefs = []*sg.Typedef{{Name: "t", Type: pathType(c, e)}}
 		m2.Nodes[0].Kids = append(m2.Nodes[0].Kids, &sg.Node{Kind: "leaf", Name: "carrier", Type: &sg.TypeSpec{Name: "m1:t"}})
+	case "typedef-unused":
+		m1.Typedefs = []*sg.Typedef{{Name: "t", Type: pathType(c, e)}}
 	case "uses-when-remote":
 		// the when is written on the uses in M2; the node it lands on comes from M1's grouping
 		m1.Groupings = []*sg.Grouping{{Name: "g", Kids: []*sg.Node{leaf("carrier")}}}
@@ -307,7 +323,7 @@ func checkCase(c Case) fw.Outcome {
 		}
 		return out
 	}
-	if c.Placement == "grouping-unused" {
+	if c.Placement == "grouping-unused" || c.Placement == "typedef-unused" {
 		return out
 	}
 	// on success: every prefixed step carries the namespace bound in the DEFINING module
@@ -329,6 +345,13 @@ func checkCase(c Case) fw.Outcome {
 	default:
 		if lr, ok := n.Type().(schema.Leafref); ok {
 			mach = lr.Mach()
+		}
+		if u, ok := n.Type().(schema.Union); ok {
+			for _, mt := range u.Typs() {
+				if lr, ok := mt.(schema.Leafref); ok {
+					mach = lr.Mach()
+				}
+			}
 		}
 	}
 	if mach == nil {
@@ -383,8 +406,8 @@ func TestAllCombinations(t *testing.T) {
 	}
 	n := int64(0)
 	for _, p := range placements {
-		for _, car := range []string{"must", "when", "path"} {
-			if only := onlyCarrier[p]; only != "" && car != only {
+		for _, car := range carriers {
+			if only := onlyCarrier[p]; only != "" && car != only && !(only == "path" && car == "upath") {
 				continue
 			}
 			for e := range table(car) {
